@@ -120,6 +120,43 @@ pub fn read_damaged(bytes: &[u8]) -> Outcome {
     }
 }
 
+/// The deserializing iterator over the same bytes: (items before the first error, errors, items after it).
+/// None if the file does not open.
+pub fn read_damaged_deser(bytes: &[u8]) -> Option<(usize, usize, usize)> {
+    let r = Reader::new(bytes).ok()?;
+    let (mut ok, mut errors, mut after, mut total) = (0usize, 0usize, 0usize, 0usize);
+    for item in r.into_deser_iter::<crate::dynserde::AnyTree>() {
+        total += 1;
+        match item {
+            Ok(_) if errors == 0 => ok += 1,
+            Ok(_) => after += 1,
+            Err(_) => errors += 1,
+        }
+        if total > 100_000 {
+            break;
+        }
+    }
+    Some((ok, errors, after))
+}
+
+/// Both iterators tell the same story about a damaged file.
+fn deser_agrees(b: &Built, damaged: &[u8], values: usize, errors: usize, what: &str) -> CaseResult {
+    let got = guard(|| read_damaged_deser(damaged)).map_err(|p| Fail::new(format!("C14/panic/{}", p.key_loc()), format!("{what} (into_deser_iter): {}", p.msg)).with(fdetail(b, what.to_string())))?;
+    match got {
+        None => Err(Fail::new("C14/deser-iterator-differs", format!("{what}: the file opens for the value iterator but not for into_deser_iter")).with(fdetail(b, what.to_string()))),
+        Some((ok, errs, after)) => {
+            if ok != values || (errs == 0) != (errors == 0) || errs > 1 || after != 0 {
+                return Err(Fail::new(
+                    "C14/deser-iterator-differs",
+                    format!("{what}: the value iterator delivers {values} values and {errors} error(s); into_deser_iter delivers {ok} values, {errs} error(s) and {after} item(s) after the first error"),
+                )
+                .with(fdetail(b, what.to_string())));
+            }
+            Ok(())
+        }
+    }
+}
+
 fn expect_prefix(b: &Built, got: &[Value], nblocks: usize) -> Result<(), String> {
     let want: Vec<&V> = b.blocks[..nblocks].iter().flatten().collect();
     if got.len() != want.len() {
@@ -182,7 +219,7 @@ pub fn check_cut(b: &Built, cut: usize) -> CaseResult {
                 };
                 return Err(Fail::new(format!("C14/silent-truncation/{wher}"), format!("cut at {cut} inside a block ended the iteration without an error")).with(fdetail(b, format!("cut at {cut}"))));
             }
-            Ok(())
+            deser_agrees(b, damaged, values.len(), errors, &format!("cut at {cut}"))
         }
     }
 }
@@ -207,7 +244,7 @@ pub fn check_marker(b: &Built, which: Option<usize>, byte: usize, mask: u8) -> C
             if errors != 1 || items_after_error != 0 {
                 return Err(Fail::new("C14/marker-not-reported", format!("{what}: {errors} errors, {items_after_error} items after")).with(fdetail(b, what)));
             }
-            Ok(())
+            deser_agrees(b, &damaged, values.len(), errors, &what)
         }
     }
 }
